@@ -774,6 +774,8 @@ func (s *Server) cmdSearch(msg *Message) (res resp.Value, err error) {
 			if uint64(count) > sw.limit {
 				// a LIMIT caps COUNT exactly as it does on the filtered path
 				count = int(sw.limit)
+				sw.hitLimit = true
+				sw.numberIters = sargs.cursor + sw.limit
 			}
 			sw.count = uint64(count)
 		} else {
